@@ -718,7 +718,11 @@ func (ev *Evaluator) evalObject(pairs [][2]jast.Node, data Value, env *Env) (Val
 			continue
 		}
 		for j, it := range items {
-			kv, err := ev.eval(p[0], it, env)
+			var kctx Value = it
+			if IsUndef(data) {
+				kctx = Undef // nothing to group: the key sees no context item
+			}
+			kv, err := ev.eval(p[0], kctx, env)
 			if err != nil {
 				return Undef, err
 			}
